@@ -35,6 +35,10 @@ type GCA struct {
 	NCerts   int      `json:"ncerts"`
 	Comments []string `json:"comments,omitempty"`
 	FailAt   int      `json:"fail_at"` // signer call index that fails/panics (mode err/panic); -1: never
+	// SkewSec: the CA's clock relative to the RA's (the validity window of what it returns starts that much later
+	// or earlier); StaggerSec: each further certificate of one reply starts that much later than the one before
+	SkewSec    int64 `json:"skew_sec,omitempty"`
+	StaggerSec int64 `json:"stagger_sec,omitempty"`
 }
 
 // GRun is one invocation of gensign.
@@ -209,8 +213,9 @@ func genRun(r *sim.Rng, p *GPlan, faulty bool, odd bool) GRun {
 			run.StubAddFail = r.Range(1, run.StubKeys)
 		}
 	}
-	if r.Bool(0.2) {
-		run.SSHVer = pick(r, []string{"7.4", "9.9", "6.6", "10.0", "65535.65535"})
+	if r.Bool(0.3) {
+		// what the client says about itself must not change which CA key signs: old, odd and boundary versions too
+		run.SSHVer = pick(r, []string{"7.4", "9.9", "6.6", "10.0", "65535.65535", "6.5", "6.4", "5.7", "5.6", "5.3", "4.3", "1.0", "0.1", "0.0", "3.9"})
 	}
 	if r.Bool(0.02) {
 		run.Handlers = []string{} // no handler configured at all: nothing may happen, all authentications failed
@@ -219,6 +224,12 @@ func genRun(r *sim.Rng, p *GPlan, faulty bool, odd bool) GRun {
 		run.Agent = pick(r, agentBehaviours)
 	}
 	run.CA.NCerts = pick(r, []int{1, 1, 1, 2, 3, 0})
+	if r.Bool(0.25) {
+		run.CA.SkewSec = int64(pick(r, []int{-400 * 86400, -3600, -2, 2, 60, 3600, 86400}))
+	}
+	if r.Bool(0.1) {
+		run.CA.StaggerSec = int64(pick(r, []int{1, 3600}))
+	}
 	for i := 0; i < r.Range(0, 3); i++ {
 		run.CA.Comments = append(run.CA.Comments, pick(r, []string{"", "touch", "c2", "hello world", "paranoids.regular", "x-paranoids.regular-cert"}))
 	}
